@@ -210,19 +210,35 @@ def resolve_locals(fn, node, depth=4):
     renamed to `number`.  Lets rules compare what is computed instead of how the intermediate results are named."""
     import copy
     stores = {}
+    # targets of comprehensions live in their own scope: they are not assignments to the function's locals
+    comp_targets = set()
     for n in ast.walk(fn):
-        if isinstance(n, ast.Name) and isinstance(n.ctx, ast.Store):
+        if isinstance(n, ast.comprehension):
+            comp_targets |= {id(x) for x in ast.walk(n.target)}
+    shadowed = {x.id for n in ast.walk(fn) if isinstance(n, ast.comprehension) for x in ast.walk(n.target) if isinstance(x, ast.Name)}
+    for n in ast.walk(fn):
+        if isinstance(n, ast.Name) and isinstance(n.ctx, ast.Store) and id(n) not in comp_targets:
             stores.setdefault(n.id, []).append(n)
     params = [a.arg for a in fn.args.args]
     single = {}
+    pairs = []
     for st in ast.walk(fn):
         if isinstance(st, ast.Assign) and len(st.targets) == 1 and isinstance(st.targets[0], ast.Name):
-            t = st.targets[0].id
-            if len(stores.get(t, [])) == 1 and t not in params:
-                reads = {x.id for x in ast.walk(st.value) if isinstance(x, ast.Name)}
-                # the names read must not be assigned later than this statement
-                if all(all(s_.lineno <= st.lineno for s_ in stores.get(r, [])) for r in reads) and t not in reads:
-                    single[t] = st.value
+            pairs.append((st, st.targets[0].id, st.value))
+        elif isinstance(st, ast.Assign) and len(st.targets) == 1 and isinstance(st.targets[0], ast.Tuple) and isinstance(st.value, ast.Tuple) \
+                and len(st.targets[0].elts) == len(st.value.elts) and all(isinstance(e, ast.Name) for e in st.targets[0].elts):
+            # a, b = x, y (the right-hand sides must not read the names bound by the same statement)
+            bound = {e.id for e in st.targets[0].elts}
+            if not any(isinstance(x, ast.Name) and x.id in bound for v_ in st.value.elts for x in ast.walk(v_)):
+                pairs.extend((st, e.id, v_) for e, v_ in zip(st.targets[0].elts, st.value.elts))
+    for st, t, value in pairs:
+        if len(stores.get(t, [])) == 1 and t not in params:
+            reads = {x.id for x in ast.walk(value) if isinstance(x, ast.Name)}
+            # the names read must not be assigned later than this statement
+            if all(all(s_.lineno <= st.lineno for s_ in stores.get(r, [])) for r in reads) and t not in reads:
+                single[t] = value
+    inner = {x.id for n in ast.walk(node) if isinstance(n, ast.comprehension) for x in ast.walk(n.target) if isinstance(x, ast.Name)}
+    single = {k: v for k, v in single.items() if k not in inner}
     out = copy.deepcopy(node)
     for _ in range(depth):
         names = {x.id for x in ast.walk(out) if isinstance(x, ast.Name) and isinstance(x.ctx, ast.Load)}
@@ -325,3 +341,36 @@ def inline_statement_helpers(tree, fn, exclude=()):
     for st in flat:
         out.extend(expand(st))
     return out
+
+
+def inline_expr_helpers(tree, fn, depth=3):
+    """A copy of fn in which calls of private module-level helpers of one expression (`def _h(a, b): return <expr>`, positional
+    arguments only, every parameter used at most through plain names) are replaced by that expression with the arguments
+    substituted.  Rules that follow a value through one function then see what the helper computes."""
+    import copy
+    helpers = {}
+    for n in tree.body:
+        if isinstance(n, ast.FunctionDef) and n.name.startswith('_') and n is not fn:
+            body = strip_doc(n.body)
+            a = n.args
+            if len(body) == 1 and isinstance(body[0], ast.Return) and body[0].value is not None and not (a.vararg or a.kwarg or a.kwonlyargs or a.defaults) \
+                    and not any(isinstance(x, (ast.Lambda, ast.GeneratorExp, ast.ListComp, ast.SetComp, ast.DictComp)) and
+                                any(isinstance(y, ast.Name) and y.id in {p.arg for p in a.args} and isinstance(y.ctx, ast.Store) for y in ast.walk(x))
+                                for x in ast.walk(body[0].value)):
+                helpers[n.name] = ([p.arg for p in a.args], body[0].value)
+
+    class T(ast.NodeTransformer):
+        def visit_Call(self, node):
+            self.generic_visit(node)
+            if isinstance(node.func, ast.Name) and node.func.id in helpers and not node.keywords and len(node.args) == len(helpers[node.func.id][0]) \
+                    and not any(isinstance(x, ast.Starred) for x in node.args):
+                params, expr = helpers[node.func.id]
+                return ast.copy_location(_Subst(dict(zip(params, node.args))).visit(copy.deepcopy(expr)), node)
+            return node
+    out = copy.deepcopy(fn)
+    for _ in range(depth):
+        before = ast.dump(out)
+        out = T().visit(out)
+        if ast.dump(out) == before:
+            break
+    return ast.fix_missing_locations(out)
